@@ -112,6 +112,13 @@ func gen(t *rapid.T) pairsim.Scenario {
 	bw := rapid.IntRange(0, 4).Draw(t, "bw") > 0
 	sc.Cli = pairsim.EndCfg{SZX: rapid.IntRange(0, 6).Draw(t, "cszx"), Blockwise: bw, Queue: rapid.SampledFrom([]int{0, 1, 16}).Draw(t, "cq"), AckTimeoutMs: 500, MaxRetransmit: rapid.IntRange(0, 3).Draw(t, "cmr"), NStart: rapid.SampledFrom([]int{1, 8}).Draw(t, "nstart"), Limit: rapid.SampledFrom([]int{1, 2, 16}).Draw(t, "limit"), BwTimeoutMs: rapid.SampledFrom([]int{500, 3000, -1}).Draw(t, "cbwt")}
 	sc.Srv = pairsim.EndCfg{SZX: rapid.IntRange(0, 6).Draw(t, "sszx"), Blockwise: bw, Queue: rapid.SampledFrom([]int{0, 1, 16}).Draw(t, "sq"), AckTimeoutMs: 500, MaxRetransmit: 2, BwTimeoutMs: rapid.SampledFrom([]int{500, 3000, -1}).Draw(t, "sbwt")}
+	// either endpoint may be a connection created by a server (dtls.NewServer / tcp.NewServer)
+	if rapid.IntRange(0, 2).Draw(t, "srvrole") == 0 {
+		sc.Srv.Role = "server"
+	}
+	if rapid.IntRange(0, 3).Draw(t, "clirole") == 0 {
+		sc.Cli.Role = "server"
+	}
 	if sc.Transport == "tcp" {
 		sc.Cli.MaxMsg, sc.Srv.MaxMsg = 70000, 70000
 	} else {
